@@ -21,31 +21,31 @@ def _p(rules, decided, not_decided, technique, thorough_rules=()):
 
 
 PROPS = {
-    'C01': _p(['R-apply-step', 'R-append-gate', 'R-commit-gate', 'R-truncate-on-conflict', 'R-log-owners', 'R-leader-append-position', 'R-sender-prev-adjacent', 'R-commit-rule', 'R-match-writes', 'R-payload-complete'],
+    'C01': _p(['R-apply-step', 'R-append-gate', 'R-commit-gate', 'R-truncate-on-conflict', 'R-log-owners', 'R-leader-append-position', 'R-sender-prev-adjacent', 'R-commit-rule', 'R-match-writes', 'R-payload-complete', 'R-owners-log'],
               'apply-loop step discipline (exactly one advance per dispatched entry, batch bounded by the commit index); received entries stored '
               'only behind the log-matching gate; follower commit index raised only on a verified path and never past what the message verified; '
               'truncation only on a stored-vs-received conflict; who may truncate/clear/trim the log; snapshot payload positions agree between writer and loader.',
               ['agreement of two nodes under all schedules (global argument over interleavings, nextIndex/matchIndex dynamics, snapshot timing)'],
               'CFG reachability with obligation nodes removed (must-pass-through), path-sensitive must-facts, who-may-call'),
-    'C02': _p(['R-cb-linear', 'R-success-guard', 'R-disposition', 'R-commit-subscription', 'R-request-id-unique', 'R-commit-gate'],
+    'C02': _p(['R-cb-linear', 'R-success-guard', 'R-disposition', 'R-commit-subscription', 'R-request-id-unique', 'R-commit-gate', 'R-owners-callbacks'],
               'callback linearity (a callback taken from the queue or a waiting table is consumed exactly once on every path); SUCCESS only under '
               'stored-term == applied-term with the dispatch result of that entry; exactly one disposition (append / forward / error) per dequeued command; '
               'a callback waits at exactly the (index, term) its command was appended with; request ids never reused.',
               ['that a SUCCESS-reported command is never undone later (global, see C04)', 'timeouts'],
               'linear typestate by event counting over path-sensitive CFG exploration, guard entailment, def-use'),
-    'C03': _p(['R-vote-grant', 'R-term-vote-writes', 'R-majority', 'R-leader-entry', 'R-step-down', 'R-leader-append-position', 'R-match-writes', 'R-tally-reset'],
+    'C03': _p(['R-vote-grant', 'R-term-vote-writes', 'R-majority', 'R-leader-entry', 'R-step-down', 'R-leader-append-position', 'R-match-writes', 'R-tally-reset', 'R-owners-election'],
               'the five Raft vote-grant conditions are entailed at the grant; term only grows and the vote is reset only with a term change; every majority '
               'test is a strict majority of voters+self over the voter set; LEADER is entered only behind a majority test as CANDIDATE of the current term; '
               'newer terms / accepted append_entries lead to FOLLOWER.',
               ['the global counting argument (one leader per term follows from these local rules plus FIFO links)', 'vote duplication across restarts (C07)'],
               'path-sensitive must-fact guard entailment, small-domain evaluation of extracted majority arithmetic'),
-    'C04': _p(['R-commit-rule', 'R-match-writes', 'R-ack-after-store', 'R-truncate-on-conflict', 'R-commit-gate', 'R-leader-append-position', 'R-sender-prev-adjacent', 'R-applied-monotone', 'R-majority', 'R-rollback-paired'],
+    'C04': _p(['R-commit-rule', 'R-match-writes', 'R-ack-after-store', 'R-truncate-on-conflict', 'R-commit-gate', 'R-leader-append-position', 'R-sender-prev-adjacent', 'R-applied-monotone', 'R-majority', 'R-rollback-paired', 'R-owners-log'],
               'leader commits only an index stored on a strict majority of voters whose entry has the current term; matchIndex only raised for a successful reply, '
               'upwards, to the acknowledged index; positive acknowledgement only after gate + store (or completed install) with a recognised index; truncation only on '
               'conflict; follower commit only on verified paths, monotone and bounded by the leader commit.',
               ['Log Matching as a global invariant'],
               'must-facts with alias/congruence closure, CFG dominance, small-domain arithmetic'),
-    'C05': _p(['R-timer-reset', 'R-heartbeat', 'R-vote-refusal-justified', 'R-sender-total', 'R-chunk-length', 'R-reply-exhaustive', 'R-disposition', 'R-serializer-idle', 'R-hint-floor'],
+    'C05': _p(['R-timer-reset', 'R-heartbeat', 'R-vote-refusal-justified', 'R-sender-total', 'R-chunk-length', 'R-reply-exhaustive', 'R-disposition', 'R-serializer-idle', 'R-hint-floor', 'R-owners-election'],
               'progress obligations only: election deadline re-armed by accepted append_entries / grant / candidacy and candidacy guarded by the deadline; every '
               'iteration of the per-follower send loop sends; next index moved past a finished snapshot; every (reset, success) reply combination is acted on and refreshes '
               'the response time; no dequeued command is dropped silently.',
@@ -71,7 +71,7 @@ PROPS = {
               'no apply between fixing the position and serializing; dump only ever renamed into place; name table rebuilt for the enabled version; interrupted transfers restart.',
               ['pickle round-trip equality of user state', 'chunk reassembly under every interruption pattern'],
               'writer/reader table agreement, attribute def-order analysis, CFG reachability, call-graph reachability'),
-    'C10': _p(['R-gate-live', 'R-rollback-paired', 'R-apply-on-append', 'R-removed-excluded'],
+    'C10': _p(['R-gate-live', 'R-rollback-paired', 'R-apply-on-append', 'R-removed-excluded', 'R-owners-membership'],
               'the leader-side gate is live (pending marker set to the index of every appended membership entry, cleared only once applied, both gates dominate the mutation); '
               'truncation preceded by the reverse rollback of the same slice; snapshot adoption restores the member set; refused changes are not appended and stored ones are '
               'applied on followers; add/remove perform all their bookkeeping effects.',
@@ -114,7 +114,7 @@ PROPS = {
               'enabled version; enabled version carried by snapshots.',
               ['compatibility of old and new user code'],
               'def-use on sort keys, expression-shape agreement, guard entailment'),
-    'C18': _p(['R-majority', 'R-no-vote-without-address', 'R-observer-bookkeeping', 'R-readonly-id-unique', 'R-selfnode-deref', 'R-apply-on-append'],
+    'C18': _p(['R-majority', 'R-no-vote-without-address', 'R-observer-bookkeeping', 'R-readonly-id-unique', 'R-selfnode-deref', 'R-apply-on-append', 'R-owners-membership'],
               'all majorities measure and count the voter set only; no candidacy or vote without an own address, vote requests to voters only, observers only receive append_entries; '
               'observer connect/disconnect touch only observer bookkeeping; no unguarded dereference of the (possibly absent) own node in tick-reachable code.',
               ['convergence of observers (C05-like)'],
@@ -124,7 +124,7 @@ PROPS = {
               'per-call result object, timed-out or failed waits raise; caller-read tables are published by one assignment of a fully built value.',
               ['exactly-once application under all thread interleavings (C02 global part)'],
               'ownership/effect analysis with two thread roots, lock-scope check, CFG dominance'),
-    'C20': _p(['R-fallback-every-tick', 'R-response-time-writes', 'R-hasquorum', 'R-majority'],
+    'C20': _p(['R-fallback-every-tick', 'R-response-time-writes', 'R-hasquorum', 'R-majority', 'R-owners-liveness'],
               'a leader reaches the fallback test on every tick; responders counted iff they answered within leaderFallbackTimeout over the voter set; failing arm => FOLLOWER and no leader; '
               'response times refreshed only by replies received as leader; hasQuorum equals strict majority of connected voters (+self) for n=0..8.',
               ['the time bound itself', '"no SUCCESS while cut off"'],
